@@ -360,6 +360,9 @@ fn materialise(cls: &str, l: &Locomotive, redrv: f64, delta: f64) -> f64 {
         "pub" => pb,
         "pubp" => pb + delta,
         "over" => pb + pb / 64.0,
+        "o2" => pb + pb / 32.0, // further above the published limit: + 3 %, + 6 %, + 12 %
+        "o4" => pb + pb / 16.0,
+        "o8" => pb + pb / 8.0,
         "regenm" => -rg + delta,
         "regen" => -rg,
         "regenp" => -rg - delta,
@@ -518,6 +521,37 @@ fn map1d(r: &mut Rng, increasing: bool, narrow: bool) -> (Vec<f64>, Vec<f64>) {
     }
 }
 
+/// Largest slope dx/du of the drivetrain's attainable output fraction x over its input fraction u (x = u * eta(x)):
+/// eta^2 / alpha per map segment, alpha = (eta_a x_b - eta_b x_a) / (x_b - x_a) > 0 because x/eta increases; 1 where
+/// the lookup is clamped.  What a tolerance on the electrical side is worth at the wheel (PowerFlow!Slack).
+fn edrv_gain(xs: &[f64], es: &[f64]) -> f64 {
+    let mut g: f64 = 1.0;
+    for i in 0..xs.len() - 1 {
+        let alpha = (es[i] * xs[i + 1] - es[i + 1] * xs[i]) / (xs[i + 1] - xs[i]);
+        let em = es[i].max(es[i + 1]);
+        g = g.max(em * em / alpha);
+    }
+    g
+}
+
+/// drivetrain map whose efficiency falls (or rises) monotonically with load
+fn map_monotone(r: &mut Rng, falling: bool) -> (Vec<f64>, Vec<f64>) {
+    let xs: Vec<f64> = match r.range(0, 3) {
+        0 => vec![0.0, 1.0],
+        1 => vec![0.0, 0.5, 1.0],
+        2 => vec![0.25, 0.5, 0.75],
+        _ => vec![0.125, 0.875],
+    };
+    loop {
+        let mut es: Vec<f64> = xs.iter().map(|_| pick_eta(r)).collect();
+        es.sort_by(|a, b| if falling { b.partial_cmp(a).unwrap() } else { a.partial_cmp(b).unwrap() });
+        let xin: Vec<f64> = xs.iter().zip(&es).map(|(x, e)| x / e).collect();
+        if es[0] != es[es.len() - 1] && xin.windows(2).all(|w| w[0] < w[1]) && edrv_gain(&xs, &es) <= 8.0 {
+            return (xs, es);
+        }
+    }
+}
+
 fn gen(seed: u64, n: usize, tier: &str) -> Vec<Value> {
     let mut out = vec![];
     let maxsteps = if tier == "quick" { 48 } else { 160 };
@@ -541,9 +575,12 @@ fn gen(seed: u64, n: usize, tier: &str) -> Vec<Value> {
     ];
     for k in 0..n {
         let mut r = Rng::new(seed.wrapping_mul(1_000_003).wrapping_add(k as u64));
-        let kind = ["conv", "bel", "conv", "bel", "hyb", "hyb", "conv", "conv"][k % 8];
+        let kind = ["conv", "bel", "conv", "bel", "hyb", "hyb", "conv", "conv", "conv", "bel"][k % 10];
         let (bel, hyb) = (kind == "bel", kind == "hyb");
-        let flat = k % 8 < 2 || k % 8 == 4; // flat unit (Level B comparable on the lattice) / mapped unit
+        let flat = k % 10 < 2 || k % 10 == 4; // flat unit (Level B comparable on the lattice) / mapped unit
+        // only the drivetrain has a (monotone) efficiency map, every other component is flat: the published wheel
+        // limit is then a statement about ElectricDrivetrain::set_cur_pwr_max_out alone
+        let eonly = k % 10 >= 8;
         let ds = 4i64;
         let um = if hyb { 1024i64 } else { 1 }; // hybrids are real-sized: their generator carries a hard-coded 50 kW
         let steps_n = if hyb { r.range(6, maxsteps / 4 + 6) } else { r.range(8, maxsteps) };
@@ -600,11 +637,31 @@ fn gen(seed: u64, n: usize, tier: &str) -> Vec<Value> {
         let bnd = if !bound { "n" } else if rfc * 4 == rgen { "f" } else if rgen * 4 == rfc { "g" } else { "r" };
         let mut keff = (kf, kg, ke, kr);
         let mut temp = 45.0;
-        if !flat {
-            let _ = ();
+        let mut ekx = 1i64;
+        let mut lpub = 0i64;
+        if eonly {
+            let falling = k % 20 < 10 || r.chance(1, 2);
+            let (xe, ee) = map_monotone(&mut r, falling);
+            keff.2 = (1.0 / ee.iter().cloned().fold(1.0, f64::min)).ceil() as i64;
+            ends.2 = ((xe[0] > 0.0) as i64, (xe[xe.len() - 1] < 1.0) as i64);
+            ekx = edrv_gain(&xe, &ee).ceil() as i64;
+            lpub = 1;
+            maps.insert("frac_edrv".into(), json!(xe));
+            maps.insert("eta_edrv".into(), json!(ee));
+        } else if !flat {
             let (xf, ef) = map1d(&mut r, false, (bound && rfc * 4 == rgen) || (hyb && rfc < rgen));
             let (xg, eg) = map1d(&mut r, true, bound && rgen * 4 == rfc);
-            let (xe, ee) = map1d(&mut r, true, false);
+            let (xe, ee) = loop {
+                let m = map1d(&mut r, true, false);
+                if !bel || edrv_gain(&m.0, &m.1) <= 8.0 {
+                    break m;
+                }
+            };
+            if bel {
+                // battery-electric: the source limit is on the electrical side, whatever the battery map does
+                ekx = edrv_gain(&xe, &ee).ceil() as i64;
+                lpub = 1;
+            }
             let inv = |es: &[f64]| (1.0 / es.iter().cloned().fold(1.0, f64::min)).ceil() as i64;
             keff = (inv(&ef), inv(&eg), inv(&ee), kr);
             let e2 = |x: &[f64]| ((x[0] > 0.0) as i64, (x[x.len() - 1] < 1.0) as i64);
@@ -642,6 +699,7 @@ fn gen(seed: u64, n: usize, tier: &str) -> Vec<Value> {
             for _ in 0..len {
                 let dt = *r.pick(dts);
                 let (eng, cls): (bool, String) = match phase {
+                    0..=3 if lpub == 1 => (true, r.pick(&["pub", "pubp", "over", "o2", "o4", "o8", "o2", "f7"]).to_string()),
                     0..=3 if riding => (true, r.pick(&["pub", "pub", "pubm", "pubp", "f7"]).to_string()),
                     0..=3 => (true, format!("f{}", r.range(0, 8))),
                     4 => (true, r.pick(&["pub", "pubp", "over", "f8", "f4", "rate", "ratep"]).to_string()),
@@ -670,12 +728,13 @@ fn gen(seed: u64, n: usize, tier: &str) -> Vec<Value> {
             // design facts of the maps (code-independent): grid of fc / gen / edrv does not reach 0 (lo) / 1 (hi); which
             // component is driven to its own rating; temperature below / above the battery grid
             "glo_f": ends.0 .0, "ghi_f": ends.0 .1, "glo_g": ends.1 .0, "ghi_g": ends.1 .1, "glo_e": ends.2 .0, "ghi_e": ends.2 .1,
-            "bnd": bnd, "rtout": if !flat && (bel || hyb) { if temp < 0.0 { -1 } else if temp > 40.0 { 1 } else { 0 } } else { 0 }});
+            "lpub": lpub, "ekx": ekx,
+            "bnd": bnd, "rtout": if maps.contains_key("res_grid") { if temp < 0.0 { -1 } else if temp > 40.0 { 1 } else { 0 } } else { 0 }});
         let mut d = json!({"src":"gen","seed":seed,"k":k,"cfg":cfg,
             "soc0": if bel || hyb { (cap_q as i64 / 16) * soc16 } else { 0 },"steps":steps});
         if !flat {
-            d["maps"] = Value::Object(maps);
             d["temp"] = json!(temp);
+            d["maps"] = Value::Object(maps);
         }
         out.push(d);
     }
